@@ -29,7 +29,7 @@ def seedstats():
         det = m.get('confirmed_by_main', {}).get('detected_by_check', '?')
         t = tab.setdefault(r, {'yes': 0, 'after-strengthening': 0, 'superseded': 0, 'other': 0})
         t[det if det in t else 'other'] += 1
-    rows = ['| round | seeded changes kept | caught by the check as it was | caught after strengthening the check | caught by another property's check | superseded by a repair of ReBench |', '|---|---|---|---|---|---|']
+    rows = ['| round | seeded changes kept | caught by the check as it was | caught after strengthening the check | caught by the check of another property | superseded by a repair of ReBench |', '|---|---|---|---|---|---|']
     for r in sorted(tab):
         t = tab[r]
         rows.append('| %d | %d | %d | %d | %d | %d |' % (r, sum(t.values()), t['yes'], t['after-strengthening'], t['other'], t['superseded']))
